@@ -113,6 +113,57 @@ CHECKS = {
         note="One request instant per run (at update 1); spacing values outside the menu are not covered.",
         section="6/C07",
     ),
+    "C20": dict(
+        engine="E1 simx",
+        technique="exhaustive enumeration of update sequences around market closure (close, repeated close, re-open, never-open) x strategies x clients x orders x multi-market orderings, each a complete real run; callbacks, cleared events and flags counted against the generated data",
+        text="Every sequence of <=4 (thorough 5) letters over {open update, trade, CLOSED, re-sent CLOSED definition, re-open} containing a close, with 0/1/3 orders, 1-2 clients and subscribed / "
+        "unsubscribed strategies; a market whose first update is already CLOSED; 2-3 markets closing in every order sequentially and event-grouped, WIN and EACH_WAY. Per closing update the "
+        "process_closed_market calls, the closing book and the orders' settlement fields are checked; per closure episode the ClearedOrdersMetaEvent / ClearedMarketsEvent counts; closed flag and reset on re-open; released state.",
+        note="Simulation mode; the live-mode removal after one hour and recorder mode are not yet covered by a check (listed in DESIGN.md section 9).",
+        section="6/C20",
+    ),
+    "C13": dict(
+        engine="E1 simx",
+        technique="exhaustive program-pair enumeration with a metamorphic oracle (ledger alone == ledger alongside, both registration orders) + exhaustive fault injection at every callback invocation of a run",
+        text="All ordered pairs of 72 (thorough 104) strategy programs (placement from 8 templates, optional cancel / partial cancel / replace / second placement two updates later) x 3 market histories with trades at shared prices x both "
+        "registration orders (and 2 clients), comparing the complete normalised ledger of a strategy with its solo run; and an exception (ValueError / FlumineException) injected at every invocation index of "
+        "check_market_book, process_market_book, process_orders, process_new_market of either strategy and of a middleware, checking delivery to the others, middleware-before-strategies order, the C04/C10/C15 invariants and normal termination.",
+        note="process_closed_market is not in the statement's list; sports-data, raw-data and custom-event callbacks of the live dispatch loop are not yet injected.",
+        section="6/C13",
+    ),
+    "C14": dict(
+        engine="E1 simx",
+        technique="exhaustive enumeration of small file sets / event-group assignments / listener filters executed as real runs against a merge and filter specification; determinism by byte-comparing ledgers of fresh processes over a finite set of hash seeds and clock offsets",
+        text="All file sets of 1-3 markets with update-time increment vectors over {0,1,2,3} ms (equal publish times across and inside markets), every assignment to events and event groups, event_processing on/off; "
+        "listener filters inplay x seconds_to_start x max_inplay_seconds over 4 sequences with suspension / turn in-play; the clock seen in every callback; clock restoration also when a strategy raises with raise_errors; "
+        "8 order-placing scenarios re-run in 12 (thorough 21) fresh processes with different PYTHONHASHSEED and wall-clock offsets.",
+        note="Determinism is checked over a finite set of environments, not all; ids from uuid are excluded from the ledger.",
+        section="6/C14",
+    ),
+    "C11": dict(
+        engine="E2 livex",
+        technique="stateless depth-first exploration with canonical-state dedup of every handler-granularity interleaving of requests, sends, replies, stream snapshots, exchange fills/lapses, single-call faults and a crash/restart, on the real live code against an exchange double; oracle at every quiescent state",
+        text="8 scripts (place; place+cancel full/partial/twice; update; replace; two orders in one package; two strategies) x every interleaving of {next request, request send, reply apply, FIFO snapshot delivery, duplicate snapshot, fill half/all, lapse, async acceptance} "
+        "x one call answered TIMEOUT (applied or not) / FAILURE x crash at every point with a fresh executable-only image (one strategy not re-added); at each quiescent state local orders, live list, trades, runner slots, adoption and restart accounting are compared with the exchange double's bet table.",
+        note="Handler granularity (a request is applied at the exchange when sent and answered later); the exchange double implements the documented API contract only; six race findings are listed in known_findings.json.",
+        section="6/C11",
+    ),
+    "C12": dict(
+        engine="E2 livex + E1 simx",
+        technique="exhaustive fault enumeration on the real execution handlers against an exchange double (per-instruction outcome assignments, report permutations/omissions, transport errors per attempt, orders completing between request and reply), plus simulated packages with the event arriving while in flight",
+        text="For place/cancel/update/replace packages of 1-3 orders: every assignment of {SUCCESS, FAILURE x 3 codes, TIMEOUT, TIMEOUT-applied} to the instructions; every subset of the orders completed by the exchange before the send / between send and reply; cancel reports reversed and each missing; "
+        "APIError / InvalidResponse / StatusCodeError / API error body on attempts 1-4 with the request applied or not; async placement; and simulated packages x 9 market events. After the request finished: no stranded status, no pending trade, transaction counts vs the double's call log, retries <= 3, reports on the right orders, no escaped exception.",
+        note="Betdaq execution is outside (as stated). Packages of <=3 orders.",
+        section="6/C12",
+    ),
+    "C18": dict(
+        engine="E1 simx + E2 livex + E4 thrx",
+        technique="BFS over package/clock-step histories against a shadow ledger (E1), every interleaving of concurrently outstanding executions (E2), and opcode-level preemption-bounded thread schedules of add_transaction with a cooperative lock (E4)",
+        text="Histories of <=3 (thorough 4) ticks over placements of 1/3 orders, failing placement, failing and successful cancel, replace, forced placement with clock steps 0.1 s / 1 s / 5 s / to the hour / +1 h / +24 h starting 7 s before an hour and before midnight, limits 3 / 0 / None and two clients; "
+        "counters vs the shadow after every execution, blocking and restart judged at every validation; 2-3 live executions finishing in every order; all schedules of 2-3 threads x 1-2 add_transaction calls with <= 2 preemptions at bytecode granularity.",
+        note="The moment the client control is consulted is observed by wrapping the control instance's _validate inside the checker; limit 5000 itself is only exercised in the thorough tier.",
+        section="6/C18",
+    ),
 }
 
 PENDING_REASON = "check not built yet in this session (work in progress; see DESIGN.md section 8 for the order of work)"
